@@ -14,7 +14,8 @@ import Cirbo.Proofs.PassPipe
 -- OBLIGATION: c03_cleanup_preserves
 -- OBLIGATION: c03_equal_rows_mean_equal_functions
 -- OBLIGATION: c03_same_function
--- PARTIAL: function, interface and invariant preservation is proved for all four passes (RemoveRedundantGates both modes, MergeUnaryOperators, MergeDuplicateGates, MergeEquivalentGates), for every pipeline / pipe-operator composition / apply_transformers list and for cleanup (light and heavy), on circuits satisfying the C02 invariant with accepted arities. "Never more gates" is proved for RemoveRedundantGates; the merging passes keep every gate (same labels/types/operand counts) and rely on the implied RemoveRedundantGates. "The argument is not modified" is decided by the correspondence harness (Lean values are immutable). Theorems are partial-correctness (whenever the pass returns).
+-- OBLIGATION: c03_never_more_gates
+-- PARTIAL: function, interface and invariant preservation is proved for all four passes (RemoveRedundantGates both modes, MergeUnaryOperators, MergeDuplicateGates, MergeEquivalentGates), for every pipeline / pipe-operator composition / apply_transformers list and for cleanup (light and heavy), on circuits satisfying the C02 invariant with accepted arities. "Never more gates" is proved for every pass, pipeline and cleanup (c03_never_more_gates). "The argument is not modified" is decided by the correspondence harness (Lean values are immutable). Theorems are partial-correctness (whenever the pass returns).
 -/
 namespace Cirbo
 
@@ -110,6 +111,12 @@ def c03Example : R Circuit := runOps Circuit.empty
 example : ((c03Example >>= rrg true).toOption.map fun c => (c.inputs, c.outputs, c.labels)) =
     some (["a", "b"], ["x", "a", "x"], ["b", "a", "x"]) := by decide
 
+/-- the result never contains more gates than the argument: every single pass, every pipeline
+(nested compositions, implied removals) and cleanup, light and heavy -/
+theorem c03_never_more_gates (ts : List Tr) {c c' : Circuit} (hw : WFS c) (har : ArOK c)
+    (h : applyTransformers c ts = .ok c') : c'.gates.length ≤ c.gates.length :=
+  (pipeline_preserves ts hw har h).size
+
 #print axioms c03_rrg_preserves
 #print axioms c03_rrg_same_function
 #print axioms c03_rrg_keeps_inputs
@@ -121,5 +128,6 @@ example : ((c03Example >>= rrg true).toOption.map fun c => (c.inputs, c.outputs,
 #print axioms c03_cleanup_preserves
 #print axioms c03_equal_rows_mean_equal_functions
 #print axioms c03_same_function
+#print axioms c03_never_more_gates
 
 end Cirbo
